@@ -168,8 +168,13 @@ func tripleLaws(g alg, a, b, c any) error {
 var instIDs = []string{"A", "B", "C"}
 
 // instContent: content as a function of (id, ts) for a universe variant.
+// In odd variants the content does not depend on the timestamp: a newer version re-asserts the same
+// content (a pure heartbeat, an owner registered again for the same partition after a removal).
 func instContent(idx int, ts int64, variant int) ring.InstanceDesc {
 	h := idx*7 + int(ts)*3 + variant*5
+	if variant%2 == 1 {
+		h = idx*7 + variant*5
+	}
 	states := []ring.InstanceState{ring.ACTIVE, ring.LEAVING, ring.PENDING, ring.JOINING}
 	pool := []uint32{uint32(idx*100 + 1), uint32(idx*100 + 2), uint32(idx*100 + 3), ^uint32(0) - uint32(idx)}
 	var toks []uint32
@@ -323,10 +328,21 @@ func TestInstanceTriplesExhaustive(t *testing.T) {
 // partition-ring universe
 
 func partState(pid int32, ts int64, variant int) ring.PartitionState {
+	if variant%2 == 1 {
+		ts = 0 // the same state re-asserted at a later time
+	}
 	return []ring.PartitionState{ring.PartitionPending, ring.PartitionActive, ring.PartitionInactive}[(int64(pid)+ts+int64(variant))%3]
 }
-func partLock(pid int32, lts int64, variant int) bool { return (int64(pid)+lts+int64(variant))%2 == 0 }
+func partLock(pid int32, lts int64, variant int) bool {
+	if variant%2 == 1 {
+		lts = 0
+	}
+	return (int64(pid)+lts+int64(variant))%2 == 0
+}
 func ownerContent(oi int, ts int64, variant int) (ring.OwnerState, int32) {
+	if variant%2 == 1 {
+		ts = 0 // the same assignment at a later time
+	}
 	return ring.OwnerActive, int32((int64(oi) + ts + int64(variant)) % 2)
 }
 func partTokens(pid int32) []uint32 { return []uint32{uint32(pid)*10 + 1, uint32(pid)*10 + 2} }
@@ -398,7 +414,7 @@ func partConflict(a, b *ring.PartitionRingDesc) bool {
 func TestPartitionPairsExhaustive(t *testing.T) {
 	type shape struct{ parts, owners int }
 	shapes := []shape{{2, 1}, {1, 2}}
-	variants := vx.Pick(1, 3)
+	variants := vx.Pick(2, 4)
 	for _, sh := range shapes {
 		for v := 0; v < variants; v++ {
 			u := partUniverse(sh.parts, sh.owners, v)
@@ -430,25 +446,27 @@ func TestPartitionTriplesExhaustive(t *testing.T) {
 	if vx.Thorough() {
 		parts, owners, stride = 2, 0, 1
 	}
-	u := partUniverse(parts, owners, 0)
-	for i, a := range u {
-		if !vx.Mine(i) {
-			continue
-		}
-		for j, b := range u {
-			for k := 0; k < len(u); k += stride {
-				c := u[k]
-				vx.Eval(1)
-				if partConflict(a, b) && (partConflict(a, c) || partConflict(b, c)) {
-					vx.NonTrivial(vx.FP("ptriple", i, j, k))
-				}
-				if err := tripleLaws(partAlg, a, b, c); err != nil {
-					vx.Failf(t, "TestPartitionTriplesExhaustive", pairReplay{"part3", 0, parts, owners, i, j, k}, "%v", err)
+	for variant := 0; variant < 2; variant++ {
+		u := partUniverse(parts, owners, variant)
+		for i, a := range u {
+			if !vx.Mine(i) {
+				continue
+			}
+			for j, b := range u {
+				for k := 0; k < len(u); k += stride {
+					c := u[k]
+					vx.Eval(1)
+					if partConflict(a, b) && (partConflict(a, c) || partConflict(b, c)) {
+						vx.NonTrivial(vx.FP("ptriple", variant, i, j, k))
+					}
+					if err := tripleLaws(partAlg, a, b, c); err != nil {
+						vx.Failf(t, "TestPartitionTriplesExhaustive", pairReplay{"part3", variant, parts, owners, i, j, k}, "%v", err)
+					}
 				}
 			}
 		}
 	}
-	vx.Exhaustive(fmt.Sprintf("partition ring: all ordered triples over %d partitions and %d owners (%d descriptors)", parts, owners, len(u)))
+	vx.Exhaustive(fmt.Sprintf("partition ring: all ordered triples over %d partitions and %d owners (%d descriptors, 2 content variants)", parts, owners, len(partUniverse(parts, owners, 0))))
 }
 
 // ---------------------------------------------------------------------------------------------
